@@ -245,6 +245,9 @@ _GENERIC = (" Plus the repository-wide disciplines over the modules the property
 for _p in ("C02", "C03", "C05", "C06", "C07", "C08", "C09", "C10", "C13", "C16", "C17", "C18", "C19", "C20"):
     if "TRUTHY" not in CLAIMED[_p]["technique"]:
         CLAIMED[_p]["technique"] += _GENERIC
+for _p in ("C01", "C15", "C19"):
+    CLAIMED[_p]["technique"] += (" DERIVED-SEQ: may-stale dataflow over (derived field, source field) pairs inside each Stream method, helpers inlined - a derived field is "
+                                 "never left computed from a source the same method rewrites afterwards.")
 CLAIMED["C10"]["technique"] += " DEDUP-ID: taint of input stream records into every keep-one-per-key construct (identity keys only)."
 
 NOT_APPLICABLE = {
